@@ -29,7 +29,7 @@ from ..FEM.Elems._beam import (
 from ..Models.Beam._beam import BeamStructure, _Beam, Isotropic
 
 # simu
-from ._simu import _Simu, SolverType
+from ._simu import _Simu, SolverType, AlgoType
 from ._problem_type import ProblemType
 
 
@@ -506,6 +506,11 @@ class Beam(_Simu):
             iter = {}
 
         iter["displacement"] = self.displacement
+        # every field the running time scheme carries from one step to the next
+        if self.algo in AlgoType.Get_Hyperbolic_and_Parabolic_Types():
+            iter["speed"] = self._Get_v_n(self.problemType)
+        if self.algo in AlgoType.Get_Hyperbolic_Types():
+            iter["accel"] = self._Get_a_n(self.problemType)
 
         return super().Save_Iter(iter)
 
@@ -515,7 +520,17 @@ class Beam(_Simu):
         if results is None:
             return
 
-        self._Set_solutions(self.problemType, results["displacement"])
+        u = results["displacement"]
+        algo = self.algo
+        if algo in AlgoType.Get_Hyperbolic_and_Parabolic_Types() and "speed" in results:
+            v = results["speed"]
+        else:
+            v = np.zeros_like(u)
+        if algo in AlgoType.Get_Hyperbolic_Types() and "accel" in results:
+            a = results["accel"]
+        else:
+            a = np.zeros_like(u)
+        self._Set_solutions(self.problemType, u, v, a)
 
         return results
 
